@@ -99,11 +99,13 @@ def decode_no_raw_echo(ctx, rule='A6'):
     ctx.ob('A5', fkey(fn, 'A5', 'activeness-before-imputation'), ok, fn.where,
            'activeness is derived from the None marks before they are replaced by the inactive values',
            short(act[0]) if act else 'missing')
-    # selection-choice entries: inactive choices are marked None from the analyzer's activeness
-    mark = [s for s in walk_fn(fn) if isinstance(s, ast.If) and 'sel_choice_is_active' in norm(s.test) and
-            isinstance(s.test, ast.UnaryOp)]
-    exists(ctx, 'A5', fn, mark, 'inactive-choices-marked',
-           'selection-choice entries the analyzer reports inactive are marked unused')
+    # selection-choice entries: inactive choices are marked unused from the analyzer's activeness, which is
+    # indexed in choice space (rule A21)
+    from . import indexspace
+    indexspace.check_index_spaces(ctx, [f'{GP}.get_graph', f'{GP}._update_comb_fixed_mask'])
+    uses = [x for x in walk_fn(fn) if isinstance(x, ast.Subscript) and norm(x.value) == 'sel_choice_is_active']
+    exists(ctx, 'A5', fn, uses, 'inactive-choices-marked',
+           'the activeness reported by the analyzer decides which selection-choice entries are used')
 
 
 def inactive_value_contract(ctx, rule='A5'):
